@@ -8,6 +8,7 @@ from rtverif.props.c01 import rel_for
 LAWS = ('dual-ev-alw', 'dual-once-hist', 'dual-once-hist-unb', 'implies', 'ev-ev', 'once-once',
         'since-exp', 'until-exp')
 PAST_LAWS = ('dual-once-hist', 'dual-once-hist-unb', 'implies', 'once-once', 'since-exp')
+FUT_LAWS = ('dual-ev-alw', 'ev-ev', 'implies', 'dual-ev-alw')
 DENSE_LAWS = ('dual-ev-alw', 'dual-once-hist', 'dual-once-hist-unb', 'implies', 'ev-ev', 'once-once')
 
 
@@ -190,12 +191,12 @@ class C18(Prop):
             return self.gen_dense_online(rng)
         if r0 < 0.4:
             return self.gen_dense(rng)
-        kind = rng.choice(['dt_offline', 'dt_offline', 'dt_online'])
-        law = rng.choice(PAST_LAWS if kind == 'dt_online' else LAWS)
+        kind = rng.choice(['dt_offline', 'dt_offline', 'dt_online', 'dt_pastified'])
+        law = rng.choice(PAST_LAWS if kind == 'dt_online' else FUT_LAWS if kind == 'dt_pastified' else LAWS)
         nv = rng.choice([1, 2, 2, 3])
         c = lang.GenCfg(vars=list(lang.VAR_POOL[:nv]), max_depth=rng.choice([0, 1, 2, 3]),
                         max_bound=rng.choice([2, 4, 6]))
-        if kind == 'dt_online':
+        if kind in ('dt_online', 'dt_pastified'):
             c.future = False
         if rng.random() < 0.3:
             c.untyped = 0.2
@@ -206,6 +207,10 @@ class C18(Prop):
         names = sorted(set(lang.variables(p) + lang.variables(q))) or ['x']
         case = {'law': law, 'kind': kind, 'p': lang.to_jsonable(p), 'q': lang.to_jsonable(q), 'i1': list(i1),
                 'i2': list(i2), 'data': lang.gen_trace(rng, names, n)}
+        if kind == 'dt_pastified':
+            # bounded-future laws through pastify() + update(), under a sampling period that need not be 1 s
+            case['period'] = rng.choice([[1, 's'], [500, 'ms'], [2, 's'], [250, 'ms'], [4, 's']])
+            case['data'] = lang.gen_trace(rng, names, n + 8)
         if kind == 'dt_online' and rng.random() < 0.3:
             case['prelude'] = lang.gen_trace(rng, names, rng.randint(1, 12))    # an earlier run, then reset()
         return case
@@ -231,6 +236,17 @@ class C18(Prop):
             return drive.values(drive.dt_offline(text, names, data, n))
         if kind == 'dt_online':
             return drive.dt_online(text, names, data, n, prelude=prelude)
+        if kind == 'dt_pastified':
+            import random
+            from fractions import Fraction as Fr
+            from rtverif.props.c08 import Speller, U
+            per = self._period
+            P = per[0] * U[per[1]]
+            text = lang.to_text(f, ivl_printer=Speller(random.Random(0), P, 's', 'default').ivl)
+            out = drive.dt_online(text, names, data, n, times=[float(Fr(i * P, U['s'])) for i in range(n)],
+                                  sd={'period': (per[0], per[1], 0.1)}, pastify=True)
+            h = lang.horizon(f)
+            return out[h:] + [float('nan')] * h          # value for time t is returned by update #(t+h)
         raise ValueError(kind)
 
     def judge(self, case):
@@ -252,6 +268,9 @@ class C18(Prop):
             return v
         rel = max(rel_for(lhs), rel_for(rhs))
         v.info['law:%s/%s' % (case['law'], kind)] = 1
+        self._period = case.get('period')
+        if self._period:
+            v.info['period:%s%s' % tuple(self._period)] = 1
         try:
             a = self.run_side(kind, lhs, names, data, n, case.get('prelude'))
             b = self.run_side(kind, rhs, names, data, n, case.get('prelude'))
@@ -265,6 +284,8 @@ class C18(Prop):
         for t in range(n):
             if el[t] != el[t] or er[t] != er[t]:
                 continue
+            if kind == 'dt_pastified' and t >= n - max(lang.horizon(lhs), lang.horizon(rhs)):
+                continue                 # not yet reported by one of the delayed monitors
             if not ref.same(a[t], b[t], rel):
                 v.bad('law:' + case['law'], '%s monitor, law %s: %s gives %r but %s gives %r at t=%d; data=%s' % (
                     kind, case['law'], lang.to_text(lhs), a[t], lang.to_text(rhs), b[t], t, data))
